@@ -237,9 +237,8 @@ def encFactorC (s : St) : CM Val := do
   if s.idx = 0 then .error .other
   else
     let heads ← s.vals.mapM (fun l => nthVal l (s.idx - 1))
-    match ← minmaxInt heads with
-    | some (lo, hi) => if lo ≠ hi then .error .other else headVal heads
-    | none => headVal heads
+    sameAsFirst heads
+    headVal heads
 
 def encPrimsC : Prims where
   numeric := encNumericC
